@@ -140,9 +140,17 @@ func c15HandlerActor() []core.Scenario {
 				uPanic, _ = core.Catch(func() { h.Post(func() {}) }) // blocks in the channel send
 			}()
 			time.Sleep(2 * time.Millisecond)
-			cp, _ := core.Catch(func() { h.Close() })
+			var cp any
+			cDone := make(chan struct{})
+			go func() { defer close(cDone); cp, _ = core.Catch(func() { h.Close() }) }()
+			select { // Close may legitimately wait until the running function is done
+			case <-cDone:
+			case <-time.After(20 * time.Millisecond):
+			}
 			close(gate)
-			v, dump := core.AwaitOrStuck(uDone, 2*time.Second, 60*time.Second, director.Get().Total)
+			both := make(chan struct{})
+			go func() { <-uDone; <-cDone; close(both) }()
+			v, dump := core.AwaitOrStuck(both, 2*time.Second, 60*time.Second, director.Get().Total)
 			rep := map[string]any{"scenario": id}
 			if uPanic != nil {
 				c.Violationf("Handler.Post@blocked-in-send:user-panic:"+core.NormalizePanic(fmt.Sprint(uPanic)), rep, "a Post blocked in the channel send panics when the Handler is closed: %v", uPanic)
@@ -185,9 +193,17 @@ func c15HandlerActor() []core.Scenario {
 				uPanic, _ = core.Catch(func() { a.Send(1) })
 			}()
 			time.Sleep(2 * time.Millisecond)
-			cp, _ := core.Catch(func() { a.Close() })
+			var cp any
+			cDone := make(chan struct{})
+			go func() { defer close(cDone); cp, _ = core.Catch(func() { a.Close() }) }()
+			select {
+			case <-cDone:
+			case <-time.After(20 * time.Millisecond):
+			}
 			close(gate)
-			v, dump := core.AwaitOrStuck(uDone, 2*time.Second, 60*time.Second, director.Get().Total)
+			both := make(chan struct{})
+			go func() { <-uDone; <-cDone; close(both) }()
+			v, dump := core.AwaitOrStuck(both, 2*time.Second, 60*time.Second, director.Get().Total)
 			rep := map[string]any{"scenario": id}
 			if uPanic != nil {
 				c.Violationf("Actor.Send@blocked-in-send:user-panic:"+core.NormalizePanic(fmt.Sprint(uPanic)), rep, "a Send blocked in the channel send panics when the Actor is closed: %v", uPanic)
@@ -197,6 +213,94 @@ func c15HandlerActor() []core.Scenario {
 			}
 			if v == "stuck" {
 				c.Violationf("Actor.Send@blocked-in-send:deadlock", map[string]any{"scenario": id, "goroutines": core.RepoGoroutineSummary(dump)}, "a Send blocked in the channel send never returns after Close")
+			}
+		}))
+	}
+	// the self-close idiom: the running function / effect closes its own Handler / Actor while other senders are
+	// blocked in Post / Send (buffer full or unbuffered)
+	for _, capy := range []int{0, 1} {
+		capy := capy
+		out = append(out, c15Scenario(fmt.Sprintf("H4-handler-closes-itself-with-blocked-posters-cap%d", capy), "Handler", func(c *core.Ctx, id string) {
+			var h *fpgo.HandlerDef
+			if capy == 0 {
+				h = fpgo.Handler.New()
+			} else {
+				h = fpgo.Handler.NewByCh(make(chan func(), capy))
+			}
+			closed := make(chan struct{})
+			gate := make(chan struct{})
+			var cp any
+			h.Post(func() {
+				<-gate
+				cp, _ = core.Catch(func() { h.Close() })
+				close(closed)
+			})
+			var wg sync.WaitGroup
+			var up atomic.Value
+			for i := 0; i < 3+capy; i++ {
+				wg.Add(1)
+				go func() {
+					defer wg.Done()
+					if pv, _ := core.Catch(func() { h.Post(func() {}) }); pv != nil {
+						up.Store(fmt.Sprint(pv))
+					}
+				}()
+			}
+			time.Sleep(2 * time.Millisecond) // the posters are blocked in the channel send now
+			close(gate)
+			all := make(chan struct{})
+			go func() { <-closed; wg.Wait(); close(all) }()
+			v, dump := core.AwaitOrStuck(all, 2*time.Second, 60*time.Second, director.Get().Total)
+			rep := map[string]any{"scenario": id}
+			if cp != nil || up.Load() != nil {
+				c.Violationf("Handler.self-close-with-blocked-posters:panic", rep, "panic: close=%v poster=%v", cp, up.Load())
+			}
+			if v == "stuck" {
+				c.Violationf("Handler.self-close-with-blocked-posters:deadlock", map[string]any{"scenario": id, "goroutines": core.RepoGoroutineSummary(dump)}, "a posted function closes its own Handler while other Posts are blocked: somebody never returns")
+			}
+		}))
+		out = append(out, c15Scenario(fmt.Sprintf("A4-actor-closes-itself-with-blocked-senders-cap%d", capy), "Actor", func(c *core.Ctx, id string) {
+			closed := make(chan struct{})
+			gate := make(chan struct{})
+			var cp any
+			first := true
+			eff := func(self *fpgo.ActorDef[int], m int) {
+				if first {
+					first = false
+					<-gate
+					cp, _ = core.Catch(func() { self.Close() })
+					close(closed)
+				}
+			}
+			var a *fpgo.ActorDef[int]
+			if capy == 0 {
+				a = fpgo.ActorNewGenerics(eff)
+			} else {
+				a = fpgo.ActorNewByOptionsGenerics(eff, make(chan int, capy), map[string]interface{}{})
+			}
+			a.Send(0)
+			var wg sync.WaitGroup
+			var up atomic.Value
+			for i := 0; i < 3+capy; i++ {
+				wg.Add(1)
+				go func() {
+					defer wg.Done()
+					if pv, _ := core.Catch(func() { a.Send(1) }); pv != nil {
+						up.Store(fmt.Sprint(pv))
+					}
+				}()
+			}
+			time.Sleep(2 * time.Millisecond)
+			close(gate)
+			all := make(chan struct{})
+			go func() { <-closed; wg.Wait(); close(all) }()
+			v, dump := core.AwaitOrStuck(all, 2*time.Second, 60*time.Second, director.Get().Total)
+			rep := map[string]any{"scenario": id}
+			if cp != nil || up.Load() != nil {
+				c.Violationf("Actor.self-close-with-blocked-senders:panic", rep, "panic: close=%v sender=%v", cp, up.Load())
+			}
+			if v == "stuck" {
+				c.Violationf("Actor.self-close-with-blocked-senders:deadlock", map[string]any{"scenario": id, "goroutines": core.RepoGoroutineSummary(dump)}, "an effect closes its own Actor while other Sends are blocked: somebody never returns")
 			}
 		}))
 	}
